@@ -1,2 +1,33 @@
-(* C07 — placeholder while the proofs are being written. *)
-From Soy Require Import Model.Bytes Model.Ast Model.RefView Model.Checker Spec.Wf.
+(* C07 — the compiler accepts exactly the bundles satisfying the data-reference
+   rules.  Property theorems only.
+
+   Model: Model/RefView.v (the view of an AST node that the rules talk about:
+   kind + children in the order of the Go Children() method), Model/Checker.v
+   (Registry.Add and parsepasses.CheckDataRefs as they are in /repo after
+   cb3f9df, 3fac11a and 4041f47: the binding stack with used flags, recurse's
+   save/pop, checkCall, the used keys).  Spec: Spec/Wf.v (lexical reading of the
+   rules; no stack, no flags).
+
+   [files_shaped] / [registry_loops_ok] are decidable facts about parsed trees that
+   the Go types and the parser guarantee (a template body is a ListNode, soydoc
+   params are SoyDocParamNodes, the list/body/ifempty of a loop are not
+   themselves {let} commands); the harness evaluates them on every parsed bundle. *)
+From Soy Require Import Model.Bytes Model.Values Model.Ast Model.RefView Model.Checker Spec.Wf Proofs.CheckerProofs.
+Open Scope N_scope.
+
+(* Registry.Add for every file followed by CheckDataRefs succeeds exactly when the
+   bundle is well-formed: both directions, all bundles, unbounded nesting. *)
+Theorem C07_check_iff_wf : forall fs, files_shaped fs = true ->
+  (compile_check fs = Accept <-> wf_bundle fs = true).
+Proof. exact check_iff_wf. Qed.
+Print Assumptions C07_check_iff_wf.
+
+(* the same for CheckDataRefs alone on a registry *)
+Theorem C07_check_registry_iff : forall reg, registry_loops_ok reg = true ->
+  (check_registry reg = Accept <-> wf_registry reg = true).
+Proof. exact check_registry_iff. Qed.
+Print Assumptions C07_check_registry_iff.
+
+(* the loop functions the model special-cases are soyhtml's loopFuncs (table regenerated from funcs.go) *)
+Theorem C07_loop_funcs_tied : loop_func_names = Generated.Tables.html_loop_funcs.
+Proof. exact loop_func_names_table. Qed.
